@@ -20,7 +20,10 @@ type corpusItem struct {
 
 var corpusC29 = []corpusItem{
 	{"doc = INT % \",\"\n", []string{"1, 2, 3", "1,2,", "", "1 2", ", 1"}},
-	{"doc = IDENT ++ RAWSTRING\n", []string{"tpl`x`", "tpl `x`", "tpl\"x\"", "tpl/* c */`x`"}},
+	{"doc = IDENT ++ RAWSTRING\n", []string{"tpl`x`", "tpl `x`", "tpl\"x\"", "tpl/* c */`x`", "données`x`", "日本語`é`", "é `x`", "données/*é*/`x`"}},
+	{"doc = STRING ++ IDENT\n", []string{"\"é\"x", "\"é\" x", "`日本`données", "\"s\"x"}},
+	{"doc = CHAR ++ IDENT ++ INT\n", []string{"'é'x1", "'é'é1", "'c'x 1", "'世' x1"}},
+	{"doc = +(IDENT SPACE IDENT)\n", []string{"é a", "éa", "données 日本語", "a/*é*/b"}},
 	{"doc = *\"a\" \"a\"\n", []string{"a a", "a", "a a a b"}},
 	{"doc = (\"a\" INT | \"a\") \"b\"\n", []string{"a b", "a 1 b", "a a"}},
 	{"doc = \"if\" | IDENT\n", []string{"if", "x", "1"}},
@@ -147,6 +150,9 @@ func (rn *runner) one(req Req) (recursive bool) {
 		o.Count("impl_crash")
 	}
 	for _, oc := range resp.Oracles {
+		if rn.kind == "c28" && oc[0] != "panic" {
+			continue // result-shape / extent oracles belong to C29
+		}
 		o.Oracle(oc[0], resp.CaseLine, oc[1]+"; grammar: "+strings.ReplaceAll(req.Text, "\n", "; ")+" input: "+req.Input)
 	}
 	switch {
@@ -184,8 +190,8 @@ func (rn *runner) one(req Req) (recursive bool) {
 // `doc = x`, `doc = op x`, `doc = x OP y`, `doc = op (x OP y)` over a small alphabet of atoms,
 // against every input of up to 3 words (blank-separated and glued).
 func exhaustive(rn *runner, kind string) {
-	atoms := []*Node{kw("a"), kw("b"), nd("class", "INT")}
-	words := []string{"a", "b", "1"}
+	atoms := []*Node{kw("a"), nd("class", "IDENT"), nd("class", "INT")}
+	words := []string{"a", "é", "1"}
 	if kind == "c28" {
 		atoms = []*Node{kw("a"), nd("true", ""), ref("doc"), opt(kw("a")), nd("space", "")}
 		words = []string{"a", "b"}
@@ -241,6 +247,28 @@ func exhaustive(rn *runner, kind string) {
 	rn.o.Stats["exhaustive_cases"] = rn.o.N - n0
 }
 
+// conflictFamily: `doc = (a "q") | ((b | c) "r")` for all a, b, c over a few token classes and
+// keywords, against inputs whose first token may start both alternatives: whether the first
+// alternative commits depends on the whole first set of the second one (CheckConflicts).
+func conflictFamily(rn *runner) {
+	atoms := []*Node{nd("class", "IDENT"), nd("class", "INT"), nd("class", "STRING"), kw("a"), kw("b")}
+	firsts := []string{"a", "b", "1", `"s"`}
+	n0 := rn.o.N
+	for _, a := range atoms {
+		for _, b := range atoms {
+			for _, c := range atoms {
+				g := gr(ru("doc", alt(seq(a, kw("q")), seq(alt(b, c), kw("r")))))
+				text := g.Text()
+				for _, t := range firsts {
+					rn.one(Req{G: g, Text: text, Input: t + " r", Procs: "-"})
+					rn.one(Req{G: g, Text: text, Input: t + " q", Procs: "-"})
+				}
+			}
+		}
+	}
+	rn.o.Stats["conflict_family_cases"] = rn.o.N - n0
+}
+
 // Main is the entry point of harness/cmd/c28 and harness/cmd/c29.
 func Main(kind string) {
 	worker := flag.Bool("worker", false, "serve match requests on stdin (child process)")
@@ -293,6 +321,9 @@ func Main(kind string) {
 		for _, in := range it.inputs {
 			rn.one(Req{Text: reRetProc.ReplaceAllString(it.text, ""), Input: in, Procs: "-"})
 		}
+	}
+	if kind == "c29" {
+		conflictFamily(rn)
 	}
 	o.Stats["corpus_cases"] = o.N
 	if f.Tier == "thorough" {
